@@ -783,13 +783,15 @@ void dtlsIncrRsn(ssl_t *ssl)
         if ((int) ssl->rsn[i] < 0xFF)
         {
             ssl->rsn[i]++;
-            if (ssl->rsn[i] > ssl->largestRsn[i])
-            {
-                ssl->largestRsn[i] = ssl->rsn[i];
-            }
             break;
         }
         ssl->rsn[i] = 0;
+    }
+    /* The largest record sequence number sent so far, as a 48-bit number
+       (a byte-wise maximum jumps to xx FF on every carry) */
+    if (Memcmp(ssl->rsn, ssl->largestRsn, sizeof(ssl->largestRsn)) > 0)
+    {
+        Memcpy(ssl->largestRsn, ssl->rsn, sizeof(ssl->largestRsn));
     }
 }
 
